@@ -55,6 +55,33 @@ pub fn expand_self<T: VisitableMut + Clone>(input: &T, to: &Type) -> T {
                 visit_type_mut(self, i);
             }
         }
+        fn visit_macro_mut(&mut self, i: &mut syn::Macro) {
+            // The arguments of a type macro are plain tokens: `Self` named there is written out as well.
+            fn replace(ts: proc_macro2::TokenStream, to: &proc_macro2::TokenStream) -> proc_macro2::TokenStream {
+                ts.into_iter()
+                    .map(|t| match t {
+                        proc_macro2::TokenTree::Ident(i) if i == "Self" => {
+                            let mut g = proc_macro2::Group::new(proc_macro2::Delimiter::None, to.clone());
+                            g.set_span(i.span());
+                            proc_macro2::TokenTree::Group(g)
+                        }
+                        proc_macro2::TokenTree::Group(g) => {
+                            let mut g2 = proc_macro2::Group::new(g.delimiter(), replace(g.stream(), to));
+                            g2.set_span(g.span());
+                            proc_macro2::TokenTree::Group(g2)
+                        }
+                        t => t,
+                    })
+                    .collect()
+            }
+            let to = self.to;
+            let to = match to {
+                Type::TraitObject(_) | Type::ImplTrait(_) => quote::quote!((#to)),
+                _ => quote::quote!(#to),
+            };
+            i.tokens = replace(std::mem::take(&mut i.tokens), &to);
+            syn::visit_mut::visit_macro_mut(self, i);
+        }
     }
     let mut input = input.clone();
     input.visit_mut(&mut ExpandSelfVisitor { to });
